@@ -1,1 +1,5 @@
-pub fn hello() {}
+pub mod member;
+pub mod props;
+pub mod run;
+pub mod safe;
+pub mod spec;
